@@ -39,6 +39,7 @@ def main():
         return 2
     if args.replay:
         from . import replay
+        common.prepare_driver()
         return replay.run(pid, args.replay)
     report = common.Report(pid, args.tier, seed)
     findings = common.load_findings()
@@ -52,6 +53,8 @@ def main():
         mods = getattr(hs[pid], 'modules', None)
         if not args.no_proof and mods:
             proof = common.prove(mods, args.tier)
+        if proof is None:
+            common.prepare_driver()
         res = hs[pid](report, rng, args.tier, findings)
         mods2, assumptions = res
         if proof is None and not args.no_proof:
